@@ -6,7 +6,7 @@ cd "$(dirname "$0")"
 export GOFLAGS=-mod=mod GOPROXY=off GOSUMDB=off GOTOOLCHAIN=local
 mkdir -p bin .cache evidence replays
 (cd tools/gofacts && go build -o ../../bin/gofacts .)
-./bin/gofacts -repo "${VERIF_REPO:-/repo}" -out lean/PhpVerif/Gen -json .cache/facts.json || true
+./bin/gofacts -repo "${VERIF_REPO:-/repo}" -out lean/PhpVerif/Gen -json .cache/facts.json -harness harness || true
 (cd lean && lake build PhpVerif 2>&1 | tail -5)
 if [ -f lean/Driver/Main.lean ]; then (cd lean && lake build driver 2>&1 | tail -3); fi
 if [ -d harness ]; then cp "${VERIF_REPO:-/repo}/go.sum" harness/go.sum; (cd harness && go build -tags verif -o ../bin/harness . ) || true; fi
